@@ -406,6 +406,7 @@ type jhist struct {
 	Kind  string      `json:"kind"`
 	Spec  *bspec      `json:"boundary,omitempty"`
 	Scen  *scenResult `json:"scenario,omitempty"`
+	Dyn   *dynResult  `json:"dynamic_timing,omitempty"`
 	World string      `json:"initial_world"`
 	Ops   []op        `json:"ops"`
 }
@@ -1200,6 +1201,18 @@ func main() {
 	f.WriteString("(* written by /verif/harness/cmd/c08 -- observations of the real code *)\n")
 	f.WriteString("From Sekai Require Import Base.Prelude Base.Dec Model.Gov Model.GovWorld Model.C08Check.\n")
 	out.WriteFile("pre.v", f.String())
+	// ---- timing / quorum scenarios of every dynamic-voter proposal kind
+	for _, dr := range runDynTiming(app, base) {
+		dr := dr
+		lines = append(lines, dr.coq())
+		js = append(js, jhist{Seed: seed, Index: len(js), Kind: "dynamic_timing", Dyn: &dr})
+		note := "ok"
+		if dr.Note != "" {
+			note = "setup_failed"
+		}
+		dist.Inc("dynamic_timing:" + note)
+	}
+
 	// interleave the (long) random histories with the (short) boundary histories so that the shards
 	// evaluated in Coq are of similar size
 	{
